@@ -327,6 +327,9 @@ func checkConfigLiterals(c *core.Ctx) {
 
 func enclosingFuncName(info *types.Info, file *ast.File, n ast.Node) string {
 	name := "?"
+	if file == nil {
+		return name
+	}
 	for _, d := range file.Decls {
 		if fd, ok := d.(*ast.FuncDecl); ok && fd.Pos() <= n.Pos() && n.End() <= fd.End() {
 			if f, ok := info.Defs[fd.Name].(*types.Func); ok {
